@@ -33,6 +33,9 @@ def judge(path):
             wit = dict(idx=idx, key=key, alg=alg, sign_provider=P[sprov], verify_provider=P[vprov], route=route, now=now,
                        given_headers=bytes.fromhex(gh).decode("utf-8", "replace")[:600], given_claims=bytes.fromhex(gc).decode("utf-8", "replace")[:600],
                        generate_msg=gmsg, verify_rc=vrc, verify_msg=vmsg, ref_valid=refvalid)
+            if bad_set and ("\\u0000" in bytes.fromhex(gh).decode("utf-8", "replace") or "\\u0000" in bytes.fromhex(gc).decode("utf-8", "replace")):
+                cnt("refused.document-with-escaped-nul")      # no token, no round trip to judge
+                continue
             if bad_set:
                 out["viol"].append(("builder-refused-input:route%d" % route, "a header/claim set call was refused for well-formed input", wit))
                 continue
